@@ -28,6 +28,7 @@ def framing(pick, enc, hexbm, nmax, sub=True, bit1=True, cfgs=None):
         core.FUEL.set(nmax + 10)
         iso = M().iso8583
         bits = list(pick())
+        rope.ASCII_ELEMENTWISE[0] = (enc == 'ascii')
         custom = cfgs_given
         cfgs = custom or bit_config()
         msg, data, src = abstract_message(bits, enc, hexbm, nmax, bit1=bit1)
@@ -134,6 +135,10 @@ def obligations(tier):
                   'element triples %s, data 0..%d' % (triples, 16 if q else 26), _funcs))
     obs.append(Ob('pairs-with-pds/latin_1', framing(lambda: choose('bits', [[3, 48], [48, 49], [54, 62]]), 'latin_1', False, 13 if q else 18), 900,
                   'pairs that include a PDS carrier, data 0..%d' % (13 if q else 18), _funcs))
+    obs.append(Ob('two-pds-carriers/latin_1', framing(lambda: choose('bits', [[48, 62], [62, 123]]), 'latin_1', False, 24 if q else 30), 900,
+                  'two PDS carriers in one message, data 0..%d: every carrier is tiled by its own sub-elements' % (24 if q else 30), _funcs))
+    obs.append(Ob('pairs-with-icc/ascii', framing(lambda: choose('bits', [[2, 55], [32, 55]]), 'ascii', False, 9 if q else 11), 900,
+                  'a text element followed by binary ICC data under the strict ascii codec: the text element is decoded from its own bytes only', _funcs))
     obs.append(Ob('pairs-with-icc/latin_1', framing(lambda: choose('bits', [[55, 63], [2, 55]]), 'latin_1', False, 8 if q else 10), 900,
                   'pairs that include the ICC element, data 0..%d' % (8 if q else 10), _funcs))
     for c in PDS_CARRIERS if not q else (48, 125):
